@@ -408,6 +408,12 @@ func (x *Exec) storeVal(st *St, fr *Frame, structTy types.Type, path string, ty 
 		}
 		return
 	}
+	if v.T == nil && v.Fn != nil {
+		// a function value stored in the heap: an opaque non-nil reference
+		r := x.fresh("closure", SRef)
+		x.assume(st, Neq(r, Null))
+		v = &Val{T: r, Ty: ty, Fn: v.Fn}
+	}
 	if v.T == nil {
 		oos("store of unsupported value into %s", path)
 	}
